@@ -2232,3 +2232,13 @@ package asm
 //@   loop 1: invariant forall(k, 0, range_at0, bscaf(f.Blocks[k], oldBlocks[k], f) && allocated(f.Blocks[k]))
 //@   loop 1: invariant block != nil && fresh(block) && 0 <= range_i && range_i <= len(oldInsts) && len(block.Insts) == len(oldInsts) && fresh(block.Insts) && len(oldInsts) == len(oldBlocks[range_at0].Insts())
 //@   loop 1: invariant res1(oldBlocks[range_at0].Name()) ==> block.LocalIdent == labelIdent(res0(oldBlocks[range_at0].Name()))
+//@ # irCallingConv: a calling-convention keyword is read through the generated keyword parser; the numeric form `cc N`
+//@ # denotes the value N (LLVM admits N <= 1023; the value type has 16 bits), except that `cc 0` (LLVM's C convention) is the
+//@ # library's value 1 (0 means "none written")
+//@ func irCallingConv
+//@   props C18
+//@   partial
+//@   assumed requires typeis(old, "*ast.CallingConvInt") ==> uintLit(cast(old, "*ast.CallingConvInt").UintLit()) <= 1023
+//@   assigns nothing
+//@   ensures typeis(old, "*ast.CallingConvEnum") ==> result == enum.CallingConvFromString(cast(old, "*ast.CallingConvEnum").Text())
+//@   ensures typeis(old, "*ast.CallingConvInt") ==> result == ite(uintLit(cast(old, "*ast.CallingConvInt").UintLit()) == 0, 1, uintLit(cast(old, "*ast.CallingConvInt").UintLit()))
